@@ -94,6 +94,7 @@ Definition role_pick {A} (r : role) (a b : A) : A := match r with RModule => a |
 
 Theorem shape_observe c sh s m : cpat c = shape_pat sh -> typing c s true = Valid m ->
   exists pc rest, window s (mstart m) = pieces_text pc ++ rest /\ pieces_ok sh pc /\ mstart m < length s /\
+    mend m = length (pieces_text pc) + mstart m /\
     observe c s =
       (true,
        Some (role_pick (crole c) (t1 pc) (t3 pc)),
@@ -103,7 +104,7 @@ Theorem shape_observe c sh s m : cpat c = shape_pat sh -> typing c s true = Vali
 Proof.
   intros Hp Ht.
   destruct (shape_groups c sh s m Hp Ht) as (pc & rest & HW & Hok & Hi & He & G0 & G1 & G2 & G3 & Hc).
-  exists pc, rest. split; [exact HW|]. split; [exact Hok|]. split; [exact Hi|].
+  exists pc, rest. split; [exact HW|]. split; [exact Hok|]. split; [exact Hi|]. split; [exact He|].
   unfold observe, is_valid, overhang_start, overhang_end, target, placeholder, with_match. rewrite Ht.
   rewrite Hc.
   assert (Hrot : rotl (Z.of_nat (p1 pc + mstart m)) s =
@@ -128,7 +129,7 @@ Theorem placeholder_target_cover c sh s : cpat c = shape_pat sh -> crole c = RVe
                   ph ++ tg = rotl (Z.of_nat a) s /\ length ph + length tg = length s.
 Proof.
   intros Hp Hr Hv. unfold is_valid in Hv. destruct (typing c s true) as [m| |] eqn:Ht; try discriminate.
-  destruct (shape_observe c sh s m Hp Ht) as (pc & rest & HW & Hok & Hi & Ho).
+  destruct (shape_observe c sh s m Hp Ht) as (pc & rest & HW & Hok & Hi & _ & Ho).
   unfold observe in Ho. rewrite Hr in Ho. cbn [role_pick] in Ho.
   assert (Hph : placeholder c s true = Some (t1 pc ++ g2text pc)) by (apply (f_equal snd) in Ho; exact Ho).
   assert (Htg : target c s true = Some (t3 pc ++ tpost pc ++ rest ++ tpre pc))
